@@ -1320,10 +1320,18 @@ impl Database {
             .map(|(idx, _)| idx)
             .collect();
 
+        // The one-pass path below rewrites the row in place and returns: it maintains no
+        // secondary or HNSW index and builds no RETURNING rows, so it is only taken when the
+        // statement needs neither.
         let can_onepass = pk_lookup_info.is_some()
             && unique_col_indices.is_empty()
             && !has_toast
-            && deferred_assignments.is_empty();
+            && deferred_assignments.is_empty()
+            && !needs_old_row_for_secondary_index
+            && !hnsw_indexes
+                .iter()
+                .any(|(_, col_idx)| modified_col_indices.contains(col_idx))
+            && update.returning.is_none();
 
         if can_onepass {
             if let Some((ref target_key, ref target_val)) = pk_lookup_info {
